@@ -1728,6 +1728,7 @@ class BADS:
 
         else:
             # Search set is empty
+            u_search = u_search_set
             y_search = self.yval
             f_mu_search = self.fval
             f_sd_search = 0
